@@ -366,6 +366,14 @@ func (l *BlockchainRpcTxWatcher) observationLoop(
 				return
 			}
 
+			// The lookup above reads the chain again: if the tip has moved on
+			// since this notification was queued, the tx may sit in a block
+			// above the announced height.  Wait for the notification of that
+			// block instead of subtracting past zero below.
+			if firstSeen > current {
+				continue
+			}
+
 			// Check that the amount of confirmation matches with what we expect
 			// First check that we are in a safe range.
 			if firstSeen > startingHeight+safetyLimit {
